@@ -21,8 +21,8 @@ def run(ctx):
               "eng cases in which some token is >= 2 s late at Shoot entry or discard report; prof cases with an unlimited tail or a token >= 2 s late; "
               "st and near cases always; distinct = distinct case lines"),
         key_fn=key_fn,
-        translators=[("consts", "ConstGen.v")],
-        bridge_files=["Gen/Waiter_bridge.v"],
+        translators=[("consts", "ConstGen.v"), ("gofn-waiter", "GoFnWaiterGen.v")],
+        bridge_files=["Gen/Waiter_bridge.v", "Gen/GoFnWaiter_bridge.v"],
         trusted=[
             "translator harness/cmd/translate consts (MaxOverdueDuration, DiscardedShootCodeError, DiscardedShootTag compiled from /repo)",
             "extraction: ExtrOcamlBasic only; OCaml driver ocaml/C04/main.ml + ocaml/common/conv.ml",
